@@ -6,6 +6,7 @@ import FgaVerif.Proofs.WGraphDst
 import FgaVerif.Proofs.WAssignPost
 import FgaVerif.Proofs.WAssignSound
 import FgaVerif.Proofs.WAssignErr
+import FgaVerif.Proofs.WGraphHop
 /-! # C05 — a model is accepted iff it is well-founded (specification side)
 
     As for C04, `Spec/Weights.lean` is a specification the real verdict is compared with under every
@@ -77,6 +78,17 @@ import FgaVerif.Proofs.WAssignErr
       for every type), `algorithm_tuple_cycle_is_justified` (an operator other than a union lies on a cycle of the graph;
       the test for unresolved references after the top-level call is dead code: `algorithm_top_level_check_never_fires`),
       `algorithm_fuel_suffices` (the fuel of the port never runs out, unconditionally).
+
+    * `built_graph_hopOK`, `built_graph_termSink`, `built_graph_noPHTypes`, `built_graph_srcOK_edges`
+      (`Proofs/WGraphHop.lean`) — **the hygiene hypotheses are theorems for the graphs that come out of the (ported)
+      construction `WGraph.build`**, under decidable hypotheses on the *names* of the model only (`NamesOkW`: no target
+      of a type restriction is spelled like an operator label `union:…`, `intersection:…`, `exclusion:…`, `:…`;
+      `TermNamesOkW`: no type name is spelled like an operator label or contains `#`; `PHNamesOkW`: no type name starts
+      with `R#`).  The node type is stored in the node record, but `GetOrAddNode` hands back whatever node already carries
+      the label, so each hypothesis is necessary: `hopNameClash`, `termNameClash`, `phNameClash`.  Hence
+      `algorithm_rejects_only_ill_founded_on_built_graphs`, `algorithm_rejected_not_well_founded_on_built_graphs` (only
+      `NamesOkW m`, `PHNamesOkW m` left) and `algorithm_accepts_iff_well_founded_on_built_graphs` (`allGoodB g` left: it
+      is false of the built graph of `thisButNotThis`).
 
     Not proved: that the port's verdict equals the specification's (`Spec/Weights.lean`) in general. -/
 namespace FgaVerif.Props.C05
@@ -684,5 +696,106 @@ example : hopOKB directToOp = false ∧ srcOKB directToOp = true ∧ rclosedB di
     (allOrders ["doc#a", "union:0"]).all (fun o => verdict directToOp o == some .modelCycle) = true := by decide +kernel
 
 end completeness
+
+/-! ### the hygiene hypotheses are theorems for built graphs (`Proofs/WGraphHop.lean`) -/
+section built
+open FgaVerif.Model.WGraph FgaVerif.Model.WAssign
+
+/-- **a direct edge of a built graph ends in a type, a wildcard or a relation node, never in an operator** — provided no
+    target of a type restriction (`T`, `T:*`, `T#r`) is spelled like the unique label of an operator node (`NamesOkW`:
+    does not start with `union:`, `intersection:`, `exclusion:` or `:`).  The node type is stored in the node record,
+    but `GetOrAddNode` hands back whatever node already carries the label: the hypothesis is needed
+    (`hopNameClash`). -/
+theorem built_graph_hopOK (m : FgaVerif.Model.Model) (g : G) (h : build m = .ok g) (hn : NamesOkW m = true) :
+    hopOKB g = true :=
+  hop_build_hopOKB m g h hn
+
+/-- **terminal type and wildcard nodes of a built graph have no outgoing edges** — provided no type name and no `T`,
+    `T:*` of a restriction is spelled like an operator label or contains `#` (`TermNamesOkW`; needed: `termNameClash`) -/
+theorem built_graph_termSink (m : FgaVerif.Model.Model) (g : G) (h : build m = .ok g) (hn : TermNamesOkW m = true) :
+    termSinkB g = true :=
+  hop_build_termSinkB m g h hn
+
+/-- **no terminal type of a built graph is named like a cycle placeholder** — provided no type name and no `T` of a
+    restriction `T` / `T:*` starts with `R#` (`PHNamesOkW`; needed: `phNameClash`) -/
+theorem built_graph_noPHTypes (m : FgaVerif.Model.Model) (g : G) (h : build m = .ok g) (hn : PHNamesOkW m = true) :
+    noPHTypesB g = true :=
+  hop_build_noPHTypesB m g h hn
+
+/-- every edge of a built graph is stored under its own source, in the form the completeness theorems use -/
+theorem built_graph_srcOK_edges (m : FgaVerif.Model.Model) (g : G) (h : build m = .ok g) :
+    ∀ n, ∀ e ∈ edgesOf g n, e.src = n :=
+  fun n e he => ((build_inv m g h).edges n).src_eq e he
+
+/-- **`algorithm_rejects_only_ill_founded` for built graphs: only hypotheses on the model are left** (two decidable
+    conditions on its names).  Whatever error the port of `AssignWeights` returns on the graph built from `m`, for
+    whatever start order, the graph is not well-founded. -/
+theorem algorithm_rejects_only_ill_founded_on_built_graphs (m : FgaVerif.Model.Model) (g : G) (hb : build m = .ok g)
+    (hnames : NamesOkW m = true) (hph : PHNamesOkW m = true) (order : List String) (e : AErr)
+    (h : assignWeights g order = .error e) :
+    (∃ n ∈ g.nodes, RPath g n.uniqueLabel n.uniqueLabel) ∨
+    (∃ n ∈ g.nodes, nodeType g n.uniqueLabel = .operator ∧ nodeLabel g n.uniqueLabel ≠ "union" ∧
+      Conn g n.uniqueLabel n.uniqueLabel) ∨
+    (∃ n ∈ g.nodes, isTerminal (nodeType g n.uniqueLabel) = false ∧ ∀ T, ¬ HasT g n.uniqueLabel T) :=
+  rejected_ill_founded g (noPHTypesB_sound g (built_graph_noPHTypes m g hb hph)) (built_graph_closed m g hb)
+    (built_graph_srcOK_edges m g hb) (hopOKB_sound g (built_graph_hopOK m g hb hnames)) order e h
+
+theorem algorithm_rejected_not_well_founded_on_built_graphs (m : FgaVerif.Model.Model) (g : G) (hb : build m = .ok g)
+    (hnames : NamesOkW m = true) (hph : PHNamesOkW m = true) (order : List String) (e : AErr)
+    (h : assignWeights g order = .error e) : ¬ WellFoundedG g :=
+  not_wellFounded_of_just (fun he => assignWeights_fuel_suffices g order (he ▸ h))
+    (assignWeights_error_justified g (noPHTypesB_sound g (built_graph_noPHTypes m g hb hph)) (built_graph_closed m g hb)
+      (built_graph_srcOK_edges m g hb) (hopOKB_sound g (built_graph_hopOK m g hb hnames)) order e h)
+
+/-- **accepted iff well-founded on built graphs**; the one hypothesis on the graph that is left is `allGoodB` (every
+    operator is a union, an intersection or an exclusion with two edges), which is *not* a theorem for built graphs:
+    `thisButNotThis` builds `oneEdgeExclusion`. -/
+theorem algorithm_accepts_iff_well_founded_on_built_graphs (m : FgaVerif.Model.Model) (g : G) (hb : build m = .ok g)
+    (hnames : NamesOkW m = true) (hph : PHNamesOkW m = true) (hgood : allGoodB g = true) (order : List String) :
+    (∃ st, assignWeights g order = .ok st) ↔ WellFoundedG g :=
+  accepted_iff_wellFoundedG g (noPHTypesB_sound g (built_graph_noPHTypes m g hb hph)) (built_graph_closed m g hb)
+    (built_graph_srcOK_edges m g hb) (hopOKB_sound g (built_graph_hopOK m g hb hnames)) (allGoodB_sound g hgood) order
+
+/-! non-vacuity: `thisButNotThis` (`define a: [user] but not [user]`) satisfies the three hypotheses on names, it builds,
+    the port rejects the built graph, and the corollary yields that it is not well-founded -/
+example : NamesOkW thisButNotThis = true ∧ TermNamesOkW thisButNotThis = true ∧ PHNamesOkW thisButNotThis = true := by
+  decide +kernel
+theorem thisButNotThis_builds : build thisButNotThis = .ok oneEdgeExclusion :=
+  hop_built_of_check _ _ (by decide +kernel)
+example : ¬ WellFoundedG oneEdgeExclusion :=
+  algorithm_rejected_not_well_founded_on_built_graphs thisButNotThis oneEdgeExclusion thisButNotThis_builds
+    (by decide +kernel) (by decide +kernel) [] .modelCycle (verdict_error (by decide +kernel))
+example : hopOKB oneEdgeExclusion = true ∧ termSinkB oneEdgeExclusion = true ∧ noPHTypesB oneEdgeExclusion = true :=
+  ⟨built_graph_hopOK thisButNotThis _ thisButNotThis_builds (by decide +kernel),
+   built_graph_termSink thisButNotThis _ thisButNotThis_builds (by decide +kernel),
+   built_graph_noPHTypes thisButNotThis _ thisButNotThis_builds (by decide +kernel)⟩
+
+/-- the hypothesis of `built_graph_hopOK` is needed.  `define a: [union:0] or …` (a restriction on a type spelled
+    `union:0`, reachable through the JSON form only): the operator node `union:0` exists when the restriction is read,
+    `GetOrAddNode` returns it, and the direct edge `union:0 → union:0` ends in an operator. -/
+def hopNameClash : FgaVerif.Model.Model := { schema := "1.1", types := [
+  { name := "doc", relations := [("a", .union [.this])],
+    md := some { relations := [("a", { restr := [{ type := "union:0" }] })] } }] }
+example : NamesOkW hopNameClash = false ∧ TermNamesOkW hopNameClash = false ∧ PHNamesOkW hopNameClash = true ∧
+    (match build hopNameClash with | .ok g => hopOKB g | .error _ => true) = false := by decide +kernel
+
+/-- the hypothesis of `built_graph_termSink` is needed: a restriction on a type spelled `a#b`, read before the relation
+    `b` of type `a` is defined, makes `a#b` a type node — with the outgoing edges of the relation -/
+def termNameClash : FgaVerif.Model.Model := { schema := "1.1", types := [
+  { name := "a", relations := [("0", .this), ("b", .this)],
+    md := some { relations := [("0", { restr := [{ type := "a#b" }] }), ("b", { restr := [{ type := "user" }] })] } },
+  { name := "user" }] }
+example : TermNamesOkW termNameClash = false ∧ NamesOkW termNameClash = true ∧ PHNamesOkW termNameClash = true ∧
+    (match build termNameClash with | .ok g => termSinkB g | .error _ => true) = false := by decide +kernel
+
+/-- the hypothesis of `built_graph_noPHTypes` is needed: a type spelled `R#x` -/
+def phNameClash : FgaVerif.Model.Model := { schema := "1.1", types := [
+  { name := "R#x" },
+  { name := "doc", relations := [("a", .this)],
+    md := some { relations := [("a", { restr := [{ type := "R#x" }] })] } }] }
+example : PHNamesOkW phNameClash = false ∧ NamesOkW phNameClash = true ∧
+    (match build phNameClash with | .ok g => noPHTypesB g | .error _ => true) = false := by decide +kernel
+
+end built
 
 end FgaVerif.Props.C05
